@@ -369,6 +369,16 @@ func (iv *Inv) fieldValidated(T *types.Named, field string, req fieldReq) (bool,
 			}
 		}
 	}
+	// only validators that are on the chain of the module's stored-value validation count
+	// (Params.Validate / GenesisState.Validate, whose nil edge dominates every store write: C13.validated)
+	vreach := iv.validatorReach(T)
+	var kept []*ssa.Function
+	for _, fn := range cands {
+		if _, ok := vreach[fn]; ok {
+			kept = append(kept, fn)
+		}
+	}
+	cands = kept
 	for _, fn := range cands {
 		isField := func(v ssa.Value) bool {
 			n, f, ok := fieldOfValue(v)
@@ -379,6 +389,30 @@ func (iv *Inv) fieldValidated(T *types.Named, field string, req fieldReq) (bool,
 		}
 	}
 	return false, ""
+}
+
+// validatorReach: functions reachable from Params.Validate and GenesisState.Validate of the package defining T.
+func (iv *Inv) validatorReach(T *types.Named) map[*ssa.Function]*ssa.Function {
+	if T.Obj().Pkg() == nil {
+		return nil
+	}
+	sp := iv.w.Prog.Package(T.Obj().Pkg())
+	if sp == nil {
+		return nil
+	}
+	var roots []*ssa.Function
+	// a message type is validated by its own ValidateBasic (baseapp / x/gov run it before the handler)
+	if vb := iv.w.methodOf(T, "ValidateBasic"); vb != nil && vb.Blocks != nil {
+		roots = append(roots, vb)
+	}
+	for _, tn := range []string{"Params", "GenesisState"} {
+		if tm := sp.Type(tn); tm != nil {
+			if fn := iv.w.methodOf(tm.Type(), "Validate"); fn != nil {
+				roots = append(roots, fn)
+			}
+		}
+	}
+	return iv.w.CG().Reach(roots)
 }
 
 // guardRejects: fn contains a guard rejecting (error on every path) values of `isField` violating req,
@@ -1479,8 +1513,25 @@ func (iv *Inv) stringNonEmpty(fn *ssa.Function, at ssa.Instruction, s ssa.Value,
 			}
 		}
 	}
-	// validated as bech32 address on the path
 	cg := iv.w.CG()
+	// validated by a module callee on the path (e.g. ValidateSendToVestingAccount parses the address)
+	for _, cs := range cg.Sites[fn] {
+		call := siteCall(cs)
+		if call == nil || len(cs.Callees) != 1 || cs.Invoke {
+			continue
+		}
+		callee := cs.Callees[0]
+		for i, a := range cs.Common().Args {
+			if i >= len(callee.Params) || !(a == s || samePath(a, s)) || !OnSuccessEdge(fn, at, call) {
+				continue
+			}
+			p := callee.Params[i]
+			if ok, _ := iv.guardRejects(callee, func(v ssa.Value) bool { return v == ssa.Value(p) }, reqNonEmpty, 1); ok {
+				return true, "g2: rejected when empty / not a bech32 address by " + funcName(callee)
+			}
+		}
+	}
+	// validated as bech32 address on the path
 	for _, cs := range cg.Sites[fn] {
 		call := siteCall(cs)
 		if call != nil && hasSuffixAny(callName(call.Common()), "types.AccAddressFromBech32") && samePath(call.Common().Args[0], s) && OnSuccessEdge(fn, at, call) {
